@@ -205,6 +205,9 @@ class TelnetTransport(Transport):
             return False
         if not self.socket.isalive():
             return False
+        if self._eof:
+            # the peer closed the connection; the socket still accepts a (zero length) send
+            return False
         return True
 
     def _read(self, n: int = 65535) -> None:
